@@ -44,7 +44,8 @@ def flip_args(rng, vals, tys, p=0.6):
 def make_case(rng, kind, opts):
     pg = ProgGen(rng, max_depth=int(opts.get("depth", 2)),
                  allow=tuple(opts.get("allow", "dist,fn,cond,vmap,scan").split(",")),
-                 collide=float(opts.get("collide", 0.03)))
+                 collide=float(opts.get("collide", 0.03)),
+                 dkinds=tuple(int(k) for k in opts.get("dkinds", "0,1,2").split(",")))
     g, tys = pg.top()
     gf = build(g)
     args = pg.args_for(tys)
